@@ -484,7 +484,7 @@ EDGE_BUT = [
     'lat=1 fill=0:2 1 i', 'lat=1 fill=0:2 1 xi 3', 'lat=1 fill=0:2 1 -1i 3',
     'lat=1 fill=0:2 1 i x', 'lat=1 fill=0:2 j i 3', 'lat=1 fill=0:1 1 m',
     'lat=1 fill=0:1 1 xm', 'lat=1 fill=0:1 2m', 'lat=1 fill=0:1 j 2m',
-    'lat=1 fill=0:1 xj', 'lat=1 fill=0:3 1 2log 8', 'lat=1 fill=0:1 1 2.5',
+    'lat=1 fill=0:1 xj', 'lat=1 fill=0:1 1 2.5',
     'lat=1 fill=0:1 1 3.5', 'lat=1 fill=0:4 1 2i 2 r', 'lat=1 fill=0:1 1 dog',
     'trcl=(1 x 3)', '*trcl=(1 2 3 x)', 'trcl', '*trcl', '*TRCL u=3', '*fill=2',
     '*FILL=1 imp:n=1', '*fill=2 trcl=(1 2 3)', 'imp:n=1.0+0', 'imp:n=2.5d-1',
